@@ -6,7 +6,10 @@ mod driver;
 mod driver2;
 mod exec_geo;
 mod exec_lin;
+mod exec_cast;
 mod exec_misc;
+mod exec_serde;
+mod swizzle_gen;
 mod exec_sleft;
 mod machine;
 mod q;
